@@ -3,3 +3,5 @@ import PfdlModel.Basic
 import PfdlModel.Sched
 import PfdlModel.Api
 import PfdlModel.Check
+import PfdlModel.ExprParse
+import PfdlModel.Denter
